@@ -108,13 +108,10 @@ bool rsValuesFacet::SetBasicText(const EntityUID target, const TextInterpretatio
   } else if (!IsBaseSet(core.GetRS(target).type)) {
     return false;
   } else {
-    const auto dataChange = std::ssize(newInterp) != std::ssize(*TextFor(target));
     if (!SetTextInternal(target, newInterp)) {
       return false;
     } else {
-      if (dataChange) {
-        core.ResetDependants(target);
-      }
+      core.ResetDependants(target);
       core.NotifyModification();
       return true;
     }
